@@ -1801,3 +1801,5 @@ PROPS["C06"]["level_text"] += (
     "c06_typed_128 - the 128-bit case spelled out (integer literal, no minus sign for u128, -0 accepted as 0, exact range check; "
     "deInt = deInt128 there); specInt_eq_targetInt - the specification of Model.TypedInt and the statement-level verdict "
     "Spec.NumberAcc.targetInt of c06_via_value are the same function of the literal.")
+# the faithful Value models' theorem modules stay among C01's targets whatever earlier statements assigned (leanchecker re-checks `.Props.` targets)
+PROPS["C01"]["lean_targets"] = PROPS["C01"]["lean_targets"][:-1] + [t for t in ("SJ.Props.C01Ap", "SJ.Props.C01Rv") if t not in PROPS["C01"]["lean_targets"]] + PROPS["C01"]["lean_targets"][-1:]
